@@ -56,6 +56,12 @@ func Snapshot() []G {
 			}
 			g.Frames = append(g.Frames, l)
 		}
+		// "semacquire" is also the state of a goroutine waiting for a runtime-internal semaphore (e.g. a GC start waiting
+		// for the world semaphore that our own stop-the-world stack dump holds): that is not a program-level block.
+		// Only a semacquire entered through package sync (WaitGroup.Wait, Once, ...) counts.
+		if g.State == "semacquire" && (len(g.Frames) == 0 || !strings.HasPrefix(g.Frames[0], "sync.")) {
+			g.State = "runtime-semacquire"
+		}
 		out = append(out, g)
 	}
 	return out
